@@ -1026,3 +1026,22 @@ pub fn num_std_select() {
     kani::cover!(a < 0.0 && b > a, "negative operand reached");
     kani::cover!(a == 0.0 && a.is_sign_negative(), "negative zero reached");
 }
+
+//@harness name=num_std_integrality tier=quick timeout=300 unwind=4 desc="builtin_is_integer/is_decimal: round(x) == x / != x" bounds="every finite double (isEven/isOdd use the float remainder, which CBMC models imprecisely: a counterexample on them did not reproduce natively, so they are outside)"
+#[kani::proof]
+#[kani::unwind(4)]
+pub fn num_std_integrality() {
+    let x = any_finite();
+    #[cfg(verif_playback)]
+    {
+        println!("REPLAY-INPUT: x={:e}", x);
+        println!("REPLAY-JSONNET: local x = {x}; [std.isInteger(x) == (std.floor(x) == x), std.isDecimal(x) == (std.floor(x) != x)]", x = lit(x));
+        println!("REPLAY-EXPECT: value [true, true]");
+    }
+    use crate::stdmath::*;
+    let integral = x == x.trunc();
+    assert!(builtin_is_integer(x) == integral, "C09.std.is_integer std.isInteger differs from its definition");
+    assert!(builtin_is_decimal(x) == !integral, "C09.std.is_decimal std.isDecimal differs from its definition");
+    kani::cover!(integral && x > 4.0e15, "large integral double reached");
+    kani::cover!(!integral && x < 0.0, "negative fraction reached");
+}
